@@ -14,7 +14,7 @@ def lookupAux {α} (prev : Entry α) : List (Entry α) → Int → Except Err α
   | e :: es, t =>
     if t > e.t then lookupAux e es t
     else if t = e.t then .ok e.v
-    else if t < prev.t + halfEven (e.t - prev.t) then .ok prev.v else .ok e.v
+    else if t - prev.t < e.t - t then .ok prev.v else .ok e.v
 
 def lastT {α} (e0 : Entry α) : List (Entry α) → Int
   | [] => e0.t
